@@ -151,6 +151,11 @@ def run(ctx, pid, phases, title, extra_tb, rule):
             # DESIGN 2.4 (b): an obligation names executors -> stress exactly those, looking for a
             # failing history, within a time budget
             named = sorted(set(m.split(":")[0] for m in bad if ":" in m and not m.startswith("obligation")) & set(tr["report"]))
+            # a broken shape fact names no executor: stress the commands that depend on it
+            if not named and any("fact_count" in m or "fact_keys" in m for m in bad):
+                named = ["del", "lpush", "set"]
+            elif not named and any("shape fact" in m for m in bad):
+                named = ["lmove", "mset", "rename", "sinter", "smove", "sunion"]
             if named and not viol:
                 import time as _t
                 t0 = _t.time()
